@@ -4,6 +4,7 @@ package main
 // are registered under each of them (same construct keys, different rule ids).
 
 import (
+	"strings"
 	"fmt"
 	"go/token"
 	"go/types"
@@ -205,6 +206,60 @@ func checkLogsMergedNotReplaced(c *Ctx, rule string) {
 	}
 }
 
+// checkTracesReplaced: trace_block (like eth_getBlockReceipts) reports the
+// complete list for a block, and the block it is attached to may be a cached
+// one that an earlier fetch already filled.  Attaching must therefore be
+// idempotent: the routine assigns a transaction's list afresh; it never
+// extends the list that is already there (a second fetch of the same segment
+// would store every trace action twice, under new indexes).
+func checkTracesReplaced(c *Ctx, rule string) {
+	w := c.W
+	for _, spec := range []struct{ fn, typ, field string }{
+		{"(*Client).traces", "Tx", "TraceActions"},
+		{"(*Client).receipts", "Receipt", "Logs"},
+	} {
+		fn := w.Fn("jrpc2", spec.fn)
+		f := w.Field("eth", spec.typ, spec.field)
+		reg := NewRegion(fn)
+		n := 0
+		reg.AllInstrs(func(in ssa.Instruction) {
+			st, ok := in.(*ssa.Store)
+			if !ok {
+				return
+			}
+			if sf, _ := fieldOf(st.Addr); sf != f {
+				return
+			}
+			n++
+			extends := false
+			for _, lf := range phiLeaves(st.Val) {
+				v := stripConv(lf.Val)
+				for d := 0; d < 4; d++ {
+					switch x := v.(type) {
+					case *ssa.Call:
+						if calleeName(x) == "builtin append" {
+							v = stripConv(x.Call.Args[0])
+							continue
+						}
+					case *ssa.Slice:
+						v = stripConv(x.X)
+						continue
+					}
+					break
+				}
+				if lf2, _ := loadedField(v); lf2 == f {
+					extends = true
+				}
+			}
+			c.Check(rule, fmt.Sprintf("%s/%s.%s-store#%d-replaces", strings.TrimPrefix(spec.fn, "(*Client)."), spec.typ, spec.field, n), st.Pos(), !extends,
+				"the complete list reported by the node replaces the transaction's list (idempotent on a cached block); it is not appended to what an earlier fetch attached")
+		})
+		if n == 0 {
+			c.Violation(rule, strings.TrimPrefix(spec.fn, "(*Client).")+"/"+spec.typ+"."+spec.field+"-store", fn.Pos(), "the routine never assigns "+spec.typ+"."+spec.field)
+		}
+	}
+}
+
 // checkLogsAddDedup: (*eth.Logs).Add drops a log only when a log with the
 // same index is already present in the whole list (the only reason two tasks
 // sharing a cached block may lose nothing), and otherwise appends it.
@@ -244,6 +299,81 @@ func checkLogsAddDedup(c *Ctx, rule string) {
 			eqT = append(eqT, t...)
 		}
 	})
+	// the same test written with the standard library: slices.ContainsFunc(*ls, func(l) { l.Idx == other.Idx })
+	for _, ci := range callsIn(add) {
+		call, ok := ci.(*ssa.Call)
+		if !ok || (calleeName(call) != "slices.ContainsFunc" && calleeName(call) != "slices.IndexFunc") || len(call.Call.Args) != 2 {
+			continue
+		}
+		if u, ok := stripConv(call.Call.Args[0]).(*ssa.UnOp); !ok || u.X != ssa.Value(ls) {
+			continue
+		}
+		var pred *ssa.Function
+		switch p := stripConv(call.Call.Args[1]).(type) {
+		case *ssa.MakeClosure:
+			pred = p.Fn.(*ssa.Function)
+		case *ssa.Function:
+			pred = p
+		}
+		if pred == nil || len(pred.Params) != 1 {
+			continue
+		}
+		okPred := true
+		for _, r := range returnsOf(pred) {
+			for _, lf := range phiLeaves(returnValues(r)[0]) {
+				b, isB := lf.Val.(*ssa.BinOp)
+				if !isB || b.Op != token.EQL {
+					okPred = false
+					continue
+				}
+				isElemIdx := func(v ssa.Value) bool {
+					root, ch := fieldChain(v)
+					if !chainIs(ch, fIdx) {
+						return false
+					}
+					if al, ok := root.(*ssa.Alloc); ok {
+						if cv := cellValue(al); cv != nil {
+							root = cv
+						}
+					}
+					return root == ssa.Value(pred.Params[0])
+				}
+				isOtherIdx := func(v ssa.Value) bool {
+					root, ch := fieldChain(v)
+					if !chainIs(ch, fIdx) {
+						return false
+					}
+					if fv, ok := root.(*ssa.FreeVar); ok {
+						if bnd := (&apWalker{}).freeVarBinding(fv); bnd != nil {
+							root = bnd
+						}
+					}
+					if al, ok := root.(*ssa.Alloc); ok {
+						if cv := cellValue(al); cv != nil {
+							root = cv
+						}
+					}
+					return root == ssa.Value(other)
+				}
+				if !((isElemIdx(b.X) && isOtherIdx(b.Y)) || (isElemIdx(b.Y) && isOtherIdx(b.X))) {
+					okPred = false
+				}
+			}
+		}
+		if !okPred {
+			continue
+		}
+		if calleeName(call) == "slices.ContainsFunc" {
+			t, _ := boolEdges(call)
+			eqT = append(eqT, t...)
+		} else {
+			ge, _ := cmpEdges(add, func(b *ssa.BinOp) bool {
+				k, ok := constInt(b.Y)
+				return b.X == ssa.Value(call) && ok && ((b.Op == token.GEQ && k == 0) || (b.Op == token.NEQ && k == -1) || (b.Op == token.GTR && k == -1))
+			})
+			eqT = append(eqT, ge...)
+		}
+	}
 	// the append
 	var app ssa.Instruction
 	allInstrs(add, func(in ssa.Instruction) {
